@@ -190,7 +190,11 @@ func genBatch(t *rapid.T) Case {
 				// call is answered with that error, the notification with silence
 				code := rapid.SampledFrom([]int{-32600, -32700, -32601, 5}).Draw(t, "hcode")
 				idp := rapid.SampledFrom([]string{``, `"id":null,`, `"id":77,`}).Draw(t, "hid")
-				ms = append(ms, fmt.Sprintf(`{"jsonrpc":"2.0",%s"method":"err","params":{"k":%d,"c":%d}}`, idp, 500000+i*10+j, code))
+				nomsg := ""
+				if rapid.IntRange(0, 2).Draw(t, "nomsg") == 0 {
+					nomsg = `,"nomsg":true` // the handler's error has no message text
+				}
+				ms = append(ms, fmt.Sprintf(`{"jsonrpc":"2.0",%s"method":"err","params":{"k":%d,"c":%d%s}}`, idp, 500000+i*10+j, code, nomsg))
 			} else if rapid.IntRange(0, 11).Draw(t, "rawresult") == 0 {
 				// calls whose handler returns a pre-encoded result, sound or broken:
 				// what goes out is valid JSON either way (the result, or an error)
